@@ -875,6 +875,11 @@ fn check_state(prop: &str, w: &World, o: &Obs, inst_cap: Option<u128>, at: &str)
                 if o.supply > c {
                     return Err(v(prop, "supply-above-cap", format!("{at}: supply {} exceeds the cap {} fixed at instantiation", o.supply, c)));
                 }
+                // ... and neither do the tokens actually held by the accounts
+                let held = o.balances.iter().fold(Uint256::zero(), |a, b| a + Uint256::from(*b));
+                if held > Uint256::from(c) {
+                    return Err(v(prop, "holdings-above-cap", format!("{at}: the accounts together hold {held}, more than the cap {c} fixed at instantiation (reported supply {})", o.supply)));
+                }
             }
             if let Some((_, c)) = &o.minter {
                 if *c != inst_cap {
